@@ -119,7 +119,8 @@ TInit == /\ tid \in DOMAIN Traces /\ l = 2 /\ verdict = "ok" /\ drift = 0 /\ liv
 \* steps of the model that have no observable boundary in the code (bounded: each moves pc forward once)
 \* a pattern argument produces one Load event per matched file (two): the first is absorbed, the second is the model's Load
 LoadsOf(arg) == Cardinality({i \in DOMAIN hist : hist[i].ev = "Load" /\ hist[i].arg = arg})
-FirstOfGlob(ev) == ev.ev = "Load" /\ ev.arg \in DOMAIN P.args /\ P.args[ev.arg].kind = "glob" /\ LoadsOf(ev.arg) = 0
+\* (the same pattern given again -- an alias -- reads the same two files again: every odd load of the pattern is absorbed)
+FirstOfGlob(ev) == ev.ev = "Load" /\ ev.arg \in DOMAIN P.args /\ P.args[ev.arg].kind = "glob" /\ LoadsOf(ev.arg) % 2 = 0
 NeedsSilent(ev) == \/ (ev.ev = "Validate" /\ pc = "load" /\ nxt > Len(Order))      \* leaving the load loop
                    \/ (ev.ev = "Render" /\ pc = "generate" /\ gen >= Len(ModelOrder(plan.args)))   \* all generate() calls returned
                    \/ (ev.ev = "Open" /\ pc = "emit" /\ plan.out # "none")          \* the text was encoded before the target is opened
